@@ -89,7 +89,10 @@ def domain_case(name, mk, info, method, n, k, boundary):
     def goals(o, L, env):
         sh, rows = o["sh"], o["rows"]
         want = n * max(k, 1)
-        yield "row_count", o["nrows"] == want
+        # a parameter-INDEPENDENT domain asked directly with k rows may answer with n rows (Interval, polygons, sphere
+        # surface) or with n*k rows (Circle): the samplers repeat / join the rows themselves (C02 checks their counts)
+        independent = not c05_dep(info, name)
+        yield "row_count", o["nrows"] == want or (independent and o["nrows"] == n)
         space_ok = o["names"] == [v for v, _ in sh.space_vars]
         yield "space", space_ok
         if not space_ok:
@@ -233,8 +236,15 @@ def cases(tier):
         prod = info.get("fam") == "product"
         poly = any(p in name for p in ("Parallelogram", "Triangle"))
         ns_grid = ((2,) if poly else (2, 3)) if quick else (1, 2, 4, 5)
+        heavy2d = info.get("fam") in ("bool", "nested", "transform") and "Interval" not in name
+        ns_r = ns_rand
+        if not quick and (heavy2d or poly):
+            # sized by wall time: 2-D Boolean combinations / polygons cost minutes per case (non-linear accept/reject forks)
+            ns_r, ns_grid = (1, 2), ((2,) if heavy2d else (2, 4))
+            if heavy2d:
+                ks = ks[-1:]
         for k in ks:
-            for n in ns_rand:
+            for n in ns_r:
                 cs.append(domain_case(name, mk, info, "random", n, k, False))
             if not prod:
                 for n in ns_grid:
@@ -244,7 +254,7 @@ def cases(tier):
         if quick and info.get("fam") in ("bool", "nested") and "Interval" not in name:
             continue  # boundary sampling of 2-D Boolean combinations: thorough tier (heavy non-linear queries)
         kb = ks[-1]
-        for n in ns_rand:
+        for n in (ns_rand if quick or not (heavy2d or poly) else (2,)):
             cs.append(domain_case(name, mk, info, "random", n, kb, True))
         cs.append(domain_case(name, mk, info, "grid", ns_grid[-1], kb, True))
     # smallest counts of the sphere surface lattice (n-1 appears in a denominator)
@@ -283,6 +293,10 @@ def cases(tier):
         if not quick:
             cs.append(sampler_case("random", name, mk, info, 3, 2, True))
             cs.append(sampler_case("lhs", name, mk, info, 3, k, False))
+    if not quick:
+        for c in cs:
+            if c.budget_s is None:
+                c.budget_s = 300  # thorough: 5 minutes per case (quick: 75 s)
     for c in cs:
         c.must_terminate = True  # "the sampling call terminates": paths beyond the unwinding bound are replayed with a time limit
     if quick:
